@@ -69,6 +69,13 @@ def run(ctx):
         ("hex-lowercased", "MAP IMAGECOLOR '#FF00AA' END", OD([("__type__", "map"), ("imagecolor", "#ff00aa")])),
         ("hex-alpha-lowercased", "STYLE COLORRANGE \"#FF00AACC\" '#00FFAAcc' END", OD([("__type__", "style"), ("colorrange", ["#ff00aacc", "#00ffaacc"])])),
         ("quotes-only-outer", "MAP NAME \"it's 'x'\" SHAPEPATH 'say \"y\"' END", OD([("__type__", "map"), ("name", "it's 'x'"), ("shapepath", 'say "y"')])),
+        # list expressions are kept as written: every item keeps the spelling of its source token
+        ("list-expression-number-spelling", "CLASS EXPRESSION {1.50,2} END", OD([("__type__", "class"), ("expression", "{1.50,2}")])),
+        ("list-expression-signs-exponents", "CLASS EXPRESSION {007,+1,1e2} END", OD([("__type__", "class"), ("expression", "{007,+1,1e2}")])),
+        ("list-expression-booleans", "CLASS EXPRESSION {TRUE,false} END", OD([("__type__", "class"), ("expression", "{TRUE,false}")])),
+        ("list-expression-trailing-dot", "CLASS EXPRESSION {2.,-0.50} END", OD([("__type__", "class"), ("expression", "{2.,-0.50}")])),
+        ("list-expression-inside-comparison", "CLASS EXPRESSION ([x] IN {1.50,007}) END", OD([("__type__", "class"), ("expression", "( [x] IN {1.50,007} )")])),
+        ("list-expression-filter-words", "LAYER FILTER {a b,c} END", OD([("__type__", "layer"), ("filter", "{a b,c}")])),
         ("keys-lowercased", "map Name 'x' LAYER nAmE 'l' END end", OD([("__type__", "map"), ("name", "x"), ("layers", [OD([("__type__", "layer"), ("name", "l")])])])),
     ]
     for name, text, want in special:
@@ -128,7 +135,7 @@ def run(ctx):
     if ctx.model_ok:
         corp = harness.corpus_files()
         rng.shuffle(corp)
-        texts = [t for _, t in cases] + [t for _, t in corp[:ctx.budget(40, 451)] if len(t) < ctx.budget(20000, 10**7)]
+        texts = [t for _, t in cases] + [t for _, t, _ in special] + [t for _, t in corp[:ctx.budget(40, 451)] if len(t) < ctx.budget(20000, 10**7)]
         outs = run_model("parser", [(1, parsing.enc_parse_case(t, False)) for t in texts])
         n_bad = 0
         for t, o in zip(texts, outs):
